@@ -37,6 +37,8 @@ def streams : List (String × Stream) := ([] : List (String × Stream))
 import Nervus.Driver.Value
 import Nervus.Driver.Sort
 import Nervus.Driver.Agg
+import Nervus.Driver.Index
+import Nervus.Driver.Hnsw
 open Nervus.Driver
 
 /-- stream registry: one line per stream (kept one-per-line so that merges are unions) -/
@@ -45,6 +47,8 @@ def streams : List (String × Stream) := [
   ("value", ValueStream.stream),
   ("sort", SortStream.stream),
   ("agg", AggStream.stream)
+  ("index", IndexStream.stream),
+  ("hnsw", HnswStream.stream)
 ]
 
 def main (args : List String) : IO UInt32 := do
